@@ -50,6 +50,8 @@ impl CancelToken {
 
     /// Check if the token is cancelled
     pub fn is_cancelled(&self) -> bool {
+        #[cfg(fidget_verif)]
+        verif_hook::call(self);
         self.0.load(Ordering::Relaxed)
     }
 
@@ -76,5 +78,33 @@ impl CancelToken {
     pub unsafe fn from_raw(ptr: *const AtomicBool) -> Self {
         let a = unsafe { Arc::from_raw(ptr) };
         Self(a)
+    }
+}
+
+/// Verification-only schedule point (compiled only with `--cfg fidget_verif`)
+///
+/// A process-global optional callback is invoked at the top of every
+/// [`CancelToken::is_cancelled`] poll, i.e. at the start of every raster tile
+/// task and every octree cell.  It is a no-op when no callback is installed.
+#[cfg(fidget_verif)]
+pub mod verif_hook {
+    use super::CancelToken;
+    use std::sync::{Arc, RwLock};
+
+    /// Callback type
+    pub type Hook = Arc<dyn Fn(&CancelToken) + Send + Sync>;
+
+    static HOOK: RwLock<Option<Hook>> = RwLock::new(None);
+
+    /// Installs (or removes) the process-global callback
+    pub fn set(h: Option<Hook>) {
+        *HOOK.write().unwrap() = h;
+    }
+
+    pub(super) fn call(t: &CancelToken) {
+        let h = HOOK.read().unwrap().clone();
+        if let Some(h) = h {
+            h(t)
+        }
     }
 }
